@@ -348,6 +348,16 @@ class ABTest(Selector):
             )
         )
         self._total: int = 0
+        self._lock: threading.Lock = threading.Lock()
+
+    def __getstate__(self):
+        state = self.__dict__.copy()
+        del state['_lock']  # not serializable (descriptors do get shipped across processes)
+        return state
+
+    def __setstate__(self, state):
+        self.__dict__.update(state)
+        self._lock = threading.Lock()
 
     @classmethod
     def compare(
@@ -371,10 +381,11 @@ class ABTest(Selector):
         return cls.Builder(project, release, generation, target)
 
     def select(self, registry: 'asset.Directory', context: typing.Any, stats: 'runtime.Stats') -> 'asset.Instance':
-        self._total += 1
-        for slot in self._slots:
-            if slot.eligible(self._total):
-                break
-        else:
-            raise RuntimeError('No eligible slots')
-        return slot.hit(registry)
+        with self._lock:  # selections arrive from a pool of threads
+            self._total += 1
+            for slot in self._slots:
+                if slot.eligible(self._total):
+                    break
+            else:
+                raise RuntimeError('No eligible slots')
+            return slot.hit(registry)
